@@ -13,3 +13,148 @@ def anc(n, a):
 
 
 TWINS = {"anc": anc}
+
+
+# ---------------------------------------------------------------------------
+# C20 / C02 / C06 / C10 / C11: executable specification functions written from
+# the property statements (NOT from the code); used as run-time oracles.
+# ---------------------------------------------------------------------------
+SYNTHETIC = ("done.", "error.", "after.", "xstate.")
+
+
+def spec_descriptors(keys, e):
+    """C20: identical key, then 'p.*' by decreasing prefix length (ties in key order), then '*';
+    synthetic events only by their exact key."""
+    keys = list(keys)
+    if not keys or not e:
+        return []
+    out = [e] if e in keys else []
+    if e.startswith(SYNTHETIC):
+        return out
+    part = [k for k in keys if k.endswith(".*") and (e == k[:-2] or e.startswith(k[:-2] + "."))]
+    part.sort(key=len, reverse=True)       # python's sort is stable: ties stay in key order
+    out += part
+    if "*" in keys:
+        out.append("*")
+    return out
+
+
+class _Missing(Exception):
+    pass
+
+
+def spec_eval_guard(interp, g, event):
+    """C06: ordinary boolean meaning; stateIn <=> named state active; raising => False;
+    named but unimplemented => _Missing (never decided either way, short-circuit allowed)."""
+    if g is None:
+        return True
+    if g.is_composite:
+        if g.type == "and":
+            for c in g.children:
+                if not spec_eval_guard(interp, c, event):
+                    return False
+            return True
+        if g.type == "or":
+            for c in g.children:
+                if spec_eval_guard(interp, c, event):
+                    return True
+            return False
+        return not spec_eval_guard(interp, g.children[0], event)
+    guards = interp.machine.logic.guards
+    if g.is_state_in and g.type not in guards:
+        params = g.params({"context": interp.context, "event": event}) if callable(g.params) else g.params
+        target = params.get("state", params.get("value")) if isinstance(params, dict) else params
+        if not isinstance(target, str) or not target:
+            return False
+        t = target[1:] if target.startswith("#") else target
+        return any(n.id == t or n.id.endswith("." + t) for n in interp._active_state_nodes)
+    fn = guards.get(g.type)
+    if not fn:
+        raise _Missing(g.type)
+    try:
+        import inspect
+        params = g.params({"context": interp.context, "event": event}) if callable(g.params) else g.params
+        if params is None:
+            return bool(fn(interp.context, event))
+        npos = len([p for p in inspect.signature(fn).parameters.values()
+                    if p.kind in (p.POSITIONAL_ONLY, p.POSITIONAL_OR_KEYWORD)])
+        return bool(fn(interp.context, event, params) if npos >= 3 else fn(interp.context, event))
+    except Exception:
+        return False
+
+
+def spec_state_candidates(state, event):
+    """Candidates of ONE state for an event, in declaration order; returns (list, blocked)."""
+    et = event.type
+    out, blocked = [], False
+    if et != "":
+        for key in spec_descriptors(state.on.keys(), et):
+            for t in state.on[key]:
+                if t.forbidden:
+                    blocked = True
+                    break
+                out.append(t)
+            if blocked:
+                break
+    if blocked:
+        return out, True
+    if not et.startswith(("done.", "error.", "after.")):
+        out += list(state.on.get("", []))
+    if state.on_done is not None and state.on_done.event == et:
+        out.append(state.on_done)
+    cls = type(event).__name__
+    if cls == "AfterEvent":
+        for ts in state.after.values():
+            out += [t for t in ts if t.event == et]
+    if cls == "DoneEvent":
+        for inv in state.invoke:
+            if event.src == inv.id:
+                out += [t for t in inv.on_done + inv.on_error if t.event == et]
+    return out, False
+
+
+def spec_nominee(interp, leaf, event, memo):
+    cur = leaf
+    while cur is not None:
+        cands, blocked = spec_state_candidates(cur, event)
+        for t in cands:
+            if id(t) not in memo:
+                memo[id(t)] = spec_eval_guard(interp, t.guard_def, event)
+            if memo[id(t)]:
+                return t
+        if blocked:
+            return None
+        cur = cur.parent
+    return None
+
+
+def spec_selected(interp, event):
+    """C02: nominees of the active atomic states (deepest first, then id), each fired once,
+    executed deepest-source-first."""
+    A = interp._active_state_nodes
+    leaves = [s for s in A if not any(c in A for c in s.states.values())]
+    leaves.sort(key=lambda s: (-s.depth, s.id))
+    memo, sel = {}, []
+    for leaf in leaves:
+        t = spec_nominee(interp, leaf, event, memo)
+        if t is not None and not any(t is x for x in sel):
+            sel.append(t)
+    sel.sort(key=lambda t: -t.source.depth)
+    return sel
+
+
+def spec_done(s, A):
+    """C10: final => done; compound => its active child is a final state;
+    parallel => every non-history region is done."""
+    if s.type == "final":
+        return True
+    if s.type == "compound":
+        return any(c in A and c.type == "final" for c in s.states.values())
+    if s.type == "parallel":
+        regs = [c for c in s.states.values() if c.type != "history"]
+        return all(c in A and spec_done(c, A) for c in regs)
+    return False
+
+
+TWINS.update({"spec_descriptors": spec_descriptors, "spec_selected": spec_selected,
+              "spec_done": spec_done, "spec_eval_guard": spec_eval_guard})
